@@ -29,6 +29,8 @@ pub fn run_check(prop: &str, tier: Tier, seed: u64) -> i32 {
         "C05" => c05(tier, seed),
         "C18" => c18(tier, seed),
         "C09" => c09(tier, seed),
+        "C07" => c07(tier, seed),
+        "C08" => c08(tier, seed),
         other => harness_error(&format!("no check registered for {other}")),
     }
 }
@@ -43,6 +45,7 @@ pub fn replay(doc: &J) -> i32 {
         "C05" => crate::driver::replay::<FaultScenario>(doc),
         "C18" => crate::driver::replay::<crate::props_mclmc::MclmcScenario>(doc),
         "C09" => crate::driver::replay::<crate::props_sched_adapt::WindowScenario>(doc),
+        "C07" | "C08" => crate::driver::replay::<crate::props_adapt::AdaptScenario>(doc),
         other => harness_error(&format!("replay: unknown property {other}")),
     }
 }
@@ -314,7 +317,7 @@ pub fn components_engine_c() -> J {
         "real_code": ["storage backends under /repo/src/storage (HashMap, ndarray, Arrow, Zarr sync) driven through StorageConfig/TraceStorage/ChainStorage (hook H2), zarrs array code, the real chains that produce the recorded histories (statistics, Progress)"],
         "stubs": ["density + expanded variables of every type/shape (harness)", "Zarr store: FaultStore over zarrs MemoryStore (write counting, k-th write fails, snapshots = what a fresh reader sees)"],
         "seams": ["hash-map iteration order: getrandom shim + fresh OS thread per run (part of the seed)", "seeded interleaving of chains, flush and inspect calls", "store trait"],
-        "not_covered": ["CSV and async Zarr writers (see DESIGN.md)"],
+        "not_covered": ["CSV writer; Zarr FilesystemStore; tokio-internal scheduling of the async writer (see DESIGN.md §9)"],
     })
 }
 
@@ -390,6 +393,13 @@ fn c14(tier: Tier, seed: u64) -> i32 {
     ctx.run_batch("all_backends", "history = real chains (6 presets, 1..4 chains, num_tune/num_draws in {0,1,2,3,5,8,13,20}, natural and injected divergences, transformation updates) + expanded variables of every type (f64,f32,i64,u64,bool,string) and shape (scalar, vector, matrix) with NaN/inf/-0.0/empty/non-ASCII values; fed through the storage traits into HashMap, ndarray, Arrow and Zarr(sync, MemoryStore) in a seeded interleaving of chains with flush/inspect calls, aborted prefixes, chunk sizes, store_warmup on/off; each run in a fresh thread with seeded hash order; read-back (finalize and inspect; Zarr via a fresh zarrs reader on a store snapshot) compared value by value with the recording model; distinct = distinct history digest", n, |rs, _| {
         gen_store(rs, "C14", &[Backend::HashMap, Backend::Arrow, Backend::Ndarray, Backend::ZarrSync])
     });
+    let n2 = ctx.n(300, 30_000);
+    ctx.run_batch("zarr_async", "same histories through the async Zarr writer (tokio runtime, in-memory store behind the async store traits with seeded write delays); read back right after finalize returned", n2, |rs, _| {
+        let mut sc = gen_store(rs, "C14", &[Backend::ZarrAsync]);
+        // keep the number of store writes moderate (every chunk of every variable is one write)
+        sc.chunk_size = sc.chunk_size.max(2);
+        sc
+    });
     ctx.finish("exploration", components_engine_c(), vec![
         "the recording model is the list of values handed to record_sample".into(),
         "NaN payloads are not compared (canonical NaN)".into(),
@@ -410,9 +420,38 @@ fn c15(tier: Tier, seed: u64) -> i32 {
         sc.fail_write = Some(r.below(400));
         sc
     });
+    let n3 = ctx.n(250, 25_000);
+    ctx.run_batch("async_flush_points", "async Zarr writer: a quarter of all store writes complete only after a seeded delay of 1..12 ms, so a write that flush()/finalize did not wait for is missing from the snapshot taken when the call returns; flush after (almost) every draw, chunk sizes incl. 1 (flush with empty buffers and writes still in flight)", n3, |rs, _| {
+        let mut sc = gen_store(rs, "C15", &[Backend::ZarrAsync]);
+        let mut r = Prng::sub(rs, "async");
+        sc.flush_prob = *r.pick(&[0.5, 1.0]);
+        // small runs: every write may sleep
+        let nt = sc.preset.num_tune().min(8);
+        sc.preset.set_num_tune(nt);
+        fix_early_window(&mut sc.preset, nt);
+        let nd = sc.preset.num_draws().min(8).max(if nt == 0 { 1 } else { 0 });
+        sc.preset.set_num_draws(nd);
+        sc.chunk_size = *r.pick(&[1u64, 2, 3, 4]);
+        sc.vars.truncate(3);
+        sc
+    });
+    let n4 = ctx.n(100, 10_000);
+    ctx.run_batch("async_store_write_faults", "async writer with the k-th store write failing", n4, |rs, _| {
+        let mut sc = gen_store(rs, "C15", &[Backend::ZarrAsync]);
+        let mut r = Prng::sub(rs, "asyncfault");
+        let nt = sc.preset.num_tune().min(8);
+        sc.preset.set_num_tune(nt);
+        fix_early_window(&mut sc.preset, nt);
+        let nd = sc.preset.num_draws().min(8).max(if nt == 0 { 1 } else { 0 });
+        sc.preset.set_num_draws(nd);
+        sc.vars.truncate(3);
+        sc.fail_write = Some(r.range(60, 400));
+        sc
+    });
     ctx.finish("fault_enumeration", components_engine_c(), vec![
         "crash = the process stops right after flush() returned; what survives is the store content at that moment (snapshot)".into(),
-        "async writer and filesystem store are not covered yet".into(),
+        "async writer: tokio is not under the simulator; write completion is delayed by seeded real-time sleeps, the verdict only depends on 'did the call wait for its writes'".into(),
+        "filesystem store not covered".into(),
     ], json!({}))
 }
 
@@ -575,5 +614,124 @@ fn c09(tier: Tier, seed: u64) -> i32 {
         "the rounding of the geometric growth is not pinned down: the next window may be floor or ceil of window*growth (at least window+1)".into(),
         "on which non-switch draws the transformation is rebuilt (mass_matrix_update_freq) is not asserted".into(),
         "that the final window uses the symmetric acceptance statistic is decided by C07's reference recursion".into(),
+    ], json!({}))
+}
+
+fn c07(tier: Tier, seed: u64) -> i32 {
+    use crate::props_adapt::AdaptScenario;
+    let mut ctx = Ctx::new("C07", tier, seed);
+    let n = ctx.n(5000, 500_000);
+    let opts = SwarmOpts { presets: crate::swarm::NUTS_PRESETS.to_vec(), allow_tune0: false, max_tune: 150, max_draws: 5, max_dim: 6, ..Default::default() };
+    ctx.run_batch("reference_recursion", "NUTS presets x randomised target_accept, k, t0, gamma, max_step_size (0.5..10), initial_step, jitter, dual averaging / Adam x targets x acceptance histories of every kind produced by the environment (mixed: fault injector and funnel; all-0: densities that always diverge; all-1: ExactNormal on a standard normal); the reference recursion (dual averaging with clamped iterates and count^-k weighted average / Adam) is fed the observed per-draw acceptance statistics (plain before the late phase, symmetric in it; late phase from the hook-H4 window counters) and must reproduce step_size_bar and step_size of every warmup draw to 1e-8; every step size finite, positive and <= max_step_size; non-trivial = more than 3 updates compared", n, |rs, _| {
+        let mut cfg = gen_chain_cfg(rs, &opts);
+        let mut r = Prng::sub(rs, "tweak");
+        match r.below(6) {
+            0 => {
+                // all-1 acceptance: ExactNormal integrator on a standard normal
+                let d = cfg.target.dim().max(1);
+                cfg.target = crate::density::std_normal(d);
+                cfg.init = vec![0.3; d];
+                match &mut cfg.preset {
+                    crate::chain::Preset::DiagNuts(s) => s.trajectory_kind = nuts_rs::KineticEnergyKind::ExactNormal,
+                    crate::chain::Preset::LowRankNuts(s) => s.trajectory_kind = nuts_rs::KineticEnergyKind::ExactNormal,
+                    crate::chain::Preset::FlowNuts(s) => s.trajectory_kind = nuts_rs::KineticEnergyKind::ExactNormal,
+                    _ => {}
+                }
+            }
+            1 => {
+                // all-0 acceptance: every trajectory evaluation fails (recoverably) from some point on
+                let from = r.range(20, 200);
+                for k in 0..400 {
+                    cfg.faults.push(crate::density::Fault { at: from + k, kind: crate::density::FaultKind::RecoverableErr });
+                }
+            }
+            2 | 3 => {
+                for _ in 0..r.range(1, 10) {
+                    cfg.faults.push(crate::density::Fault { at: r.below(1500), kind: crate::density::FaultKind::RecoverableErr });
+                }
+            }
+            _ => {}
+        }
+        AdaptScenario { prop: "C07".into(), cfg }
+    });
+    let n2 = ctx.n(48, 3000);
+    ctx.run_batch("closed_loop", "default-like settings, num_tune 300..500, 300 sampling draws on Gaussian targets (isotropic, scaled, correlated), dual averaging and Adam: post-warmup mean acceptance within a wide band around target_accept", n2, |rs, _| {
+        let mut r = Prng::sub(rs, "cl");
+        let kind = *r.pick(&[crate::swarm::PresetKind::DiagNuts, crate::swarm::PresetKind::LowRankNuts]);
+        let nt = r.range(300, 500);
+        let o = SwarmOpts { randomise_knobs: false, ..Default::default() };
+        let mut preset = crate::swarm::gen_preset(&mut r, kind, nt, 300, &o);
+        let ta = *r.pick(&[0.7, 0.8, 0.9]);
+        let adam = r.chance(0.3);
+        match &mut preset {
+            crate::chain::Preset::DiagNuts(s) => { s.adapt_options.step_size_settings.target_accept = ta; if adam { s.adapt_options.step_size_settings.adapt_options.method = nuts_rs::StepSizeAdaptMethod::Adam } }
+            crate::chain::Preset::LowRankNuts(s) => { s.adapt_options.step_size_settings.target_accept = ta; if adam { s.adapt_options.step_size_settings.adapt_options.method = nuts_rs::StepSizeAdaptMethod::Adam } }
+            _ => {}
+        }
+        let d = r.usize_in(2, 10);
+        let target = match r.below(3) {
+            0 => crate::density::std_normal(d),
+            1 => crate::density::Target::DiagNormal { mu: vec![1.0; d], sigma: (0..d).map(|_| r.log_uniform(0.01, 100.0)).collect() },
+            _ => { let eig: Vec<f64> = (0..d).map(|_| r.log_uniform(0.1, 10.0)).collect(); crate::density::dense_normal(&mut r, vec![0.0; d], &eig).0 }
+        };
+        let init = crate::swarm::init_point(&mut r, &target);
+        let cfg = crate::chain::ChainCfg { preset, target, faults: vec![], init, chain_seed: r.next_u64(), chain_id: 0, n_calls: nt + 300, keep_evals: false, max_evals: 3_000_000, reinit_at: None, observe_math: false };
+        AdaptScenario { prop: "C07cl".into(), cfg }
+    });
+    ctx.finish("exploration", components_engine_a(), vec![
+        "the result of a step-size search is not predicted by the recursion: the reference re-synchronises on the reported value there".into(),
+        "monotonicity (raising an acceptance statistic never lowers a later step size) is a property of the reference recursion: positive weights on (target - accept) in hbar, convex combination for the average; simulation ties the implementation to that recursion on all produced histories".into(),
+        "closed-loop band [target-0.25, target+0.17]".into(),
+    ], json!({}))
+}
+
+fn c08(tier: Tier, seed: u64) -> i32 {
+    use crate::props_adapt::AdaptScenario;
+    let mut ctx = Ctx::new("C08", tier, seed);
+    let n = ctx.n(4000, 400_000);
+    let presets = vec![crate::swarm::PresetKind::DiagNuts, crate::swarm::PresetKind::DiagNuts, crate::swarm::PresetKind::LowRankNuts, crate::swarm::PresetKind::DiagMclmc, crate::swarm::PresetKind::LowRankMclmc];
+    let opts = SwarmOpts { presets, allow_tune0: false, max_tune: 80, max_draws: 4, max_dim: 10, ..Default::default() };
+    ctx.run_batch("swarm", "Diag/LowRank presets with store_mass_matrix, store_transformed, store_gradient on x Gaussian targets (diagonal with condition number up to 1e12, dense), degenerate targets (flat coordinate, piecewise-linear Laplace coordinates started far in the tail => constant gradient, scales 1e-150..1e150), stuck chains and all-divergent windows (fault injector); oracles: every reported scale / eigenvalue / mean finite and positive, diagonal Gaussian recovered exactly (scales and mean to 1e-6, whitened gradient = -position) once the window holds >=4 accepted draws, a coordinate without gradient variance keeps its previous scale; non-trivial = at least one transformation update", n, |rs, _| {
+        let mut cfg = gen_chain_cfg(rs, &opts);
+        let mut r = Prng::sub(rs, "tweak");
+        match &mut cfg.preset {
+            crate::chain::Preset::DiagNuts(s) => { s.adapt_options.mass_matrix_options.store_mass_matrix = true; s.store_transformed = true; s.store_gradient = true; s.store_unconstrained = true; s.maxdepth = s.maxdepth.min(6); s.target_integration_time = None; }
+            crate::chain::Preset::LowRankNuts(s) => { s.adapt_options.mass_matrix_options.store_mass_matrix = true; s.store_transformed = true; s.store_gradient = true; s.maxdepth = s.maxdepth.min(6); }
+            crate::chain::Preset::DiagMclmc(s) => { s.adapt_options.mass_matrix_options.store_mass_matrix = true; s.store_transformed = true; s.store_gradient = true; }
+            crate::chain::Preset::LowRankMclmc(s) => { s.adapt_options.mass_matrix_options.store_mass_matrix = true; s.store_transformed = true; s.store_gradient = true; }
+            _ => {}
+        }
+        let d = cfg.target.dim().max(2);
+        match r.below(6) {
+            0 | 1 => {
+                let cond = *r.pick(&[1.0f64, 1e2, 1e6, 1e12]);
+                let sigma: Vec<f64> = (0..d).map(|_| r.log_uniform(1.0 / cond.sqrt(), cond.sqrt())).collect();
+                let mu: Vec<f64> = (0..d).map(|_| r.uniform(-3.0, 3.0)).collect();
+                cfg.init = (0..d).map(|i| mu[i] + sigma[i] * r.uniform(-1.5, 1.5)).collect();
+                cfg.target = crate::density::Target::DiagNormal { mu, sigma };
+            }
+            2 => {
+                // Laplace coordinates started far out: the gradient is constant over whole windows
+                let b: Vec<f64> = (0..d - 1).map(|_| r.log_uniform(0.1, 10.0)).collect();
+                cfg.init = std::iter::once(r.uniform(-1.0, 1.0)).chain(b.iter().map(|b| 1e4 * b)).collect();
+                cfg.target = crate::density::Target::NormalLaplace { s: r.log_uniform(0.3, 3.0), b };
+            }
+            3 => {
+                let sigma: Vec<f64> = (0..d).map(|_| *r.pick(&[1e-150, 1e150, 1.0, 1e-30, 1e30])).collect();
+                cfg.init = (0..d).map(|i| sigma[i] * r.uniform(-1.0, 1.0)).collect();
+                cfg.target = crate::density::Target::DiagNormal { mu: vec![0.0; d], sigma };
+            }
+            _ => {}
+        }
+        if r.chance(0.3) {
+            for _ in 0..r.range(1, 30) {
+                cfg.faults.push(crate::density::Fault { at: r.below(1500), kind: crate::density::FaultKind::RecoverableErr });
+            }
+        }
+        AdaptScenario { prop: "C08".into(), cfg }
+    });
+    ctx.finish("exploration", components_engine_a(), vec![
+        "windows containing NaN/inf draws or gradients are not reachable through a chain (such states are never accepted) and are not fed to the estimators directly (that would be input generation, DESIGN.md §5 C08)".into(),
+        "low-rank exactness on covariances that fit the rank is not asserted (only finiteness/positivity), see DESIGN.md".into(),
     ], json!({}))
 }
